@@ -147,5 +147,5 @@ func VerifStoreChannel(ctx context.Context, s *Service, ch Channel) error {
 	return s.table.NewCreate().Entry(&ch).Exec(ctx, s.db)
 }
 
-// VerifChanCodec is the ideal handle codec for Channel rows (see verifChanCodec).
-func VerifChanCodec() gorp.VerifCodec { return verifChanCodec() }
+// HarnessChanCodec is the ideal handle codec for Channel rows (see verifChanCodec).
+func HarnessChanCodec() gorp.VerifCodec { return verifChanCodec() }
